@@ -213,7 +213,7 @@ PROPS = {
     "C13": {
         "props": "TrackVerif.LT.PropsC13",
         "streams": [("LT", 400, 8000)],
-        "clauses": ["lt.header", "lt.wellformed", "lt.literal_ws", "lt.field_syntax", "lt.gzip", "lt.no_crash", "lt.encode_fails", "lt.encode_model", "lt.gen_schema"],
+        "clauses": ["lt.header", "lt.second_document", "lt.wellformed", "lt.literal_ws", "lt.field_syntax", "lt.gzip", "lt.no_crash", "lt.encode_fails", "lt.encode_model", "lt.gen_schema"],
         "rule": "as C01, half of the cases outside the round-trip domain: text with control characters, U+FFFE/U+FFFF, lone U+FFFD, sub-centisecond durations, extra float precision, nanosecond dates; the encoder's bytes are read by the strict tokenizer "
                 "(five predefined entities, numeric references, XML Char range, nesting) and must yield exactly the element structure and texts the declarative schema prescribes (non-XML characters substituted), no &#xA; / &#x9;, "
                 "every structured element must satisfy its grammar predicate (dates, durations, coordinates, positioning, relative-to-start, intermediates, fixed decimals), gzip output must gunzip to exactly the plain bytes",
